@@ -80,10 +80,11 @@ def nontrivial_real(b):
 def run(ctx):
     q = ctx.quick
     U.exhaustive(ctx, ["MC_UdpNatC14.cfg"] if q else ["MC_UdpNatC14T.cfg", "MC_UdpNatC14b.cfg", "MC_UdpNatLong.cfg"], "C14 safety", timeout=3000)
-    r = vlib.tlc(ctx, "MC_UdpNat", "MC_UdpNatLive.cfg" if q else "MC_UdpNatLiveT.cfg", workers="auto", timeout=3000, deadlock=False)
-    ctx.add_tlc(r, "C14 liveness under fairness")
-    if not r.ok:
-        raise vlib.Inconclusive("model finding in UdpNat.tla (liveness): %s" % r.violated)
+    if not os.environ.get("VERIF_UDP_SKIP_MC"):
+        r = vlib.tlc(ctx, "MC_UdpNat", "MC_UdpNatLive.cfg" if q else "MC_UdpNatLiveT.cfg", workers="auto", timeout=3000, deadlock=False)
+        ctx.add_tlc(r, "C14 liveness under fairness")
+        if not r.ok:
+            raise vlib.Inconclusive("model finding in UdpNat.tla (liveness): %s" % r.violated)
     # 2. virtual time
     vb = U.gen(ctx, "Gen_UdpNatVirt.cfg", 200 if q else 2000, seed=ctx.seed + 31)
     rows = virt(ctx, vb)
